@@ -56,7 +56,7 @@ theorem reversed_canonical (env : Env) (name : String) (cop : COp) (hc : cop ≠
   constructor
   · -- the guard
     unfold Atom.exactView
-    simp only [Bool.not_true, Bool.false_or, hn, Bool.not_true, Bool.false_eq_true, if_false]
+    simp only [Bool.not_true, Bool.false_or, hn, Bool.not_true, Bool.false_eq_true, if_false, Bool.and_false]
     have h1 : (MOp.ofCOp cop == MOp.in_ || MOp.ofCOp cop == MOp.notIn) = false := by cases cop <;> rfl
     have h2 : (MOp.ofCOp cop != MOp.compat) = true := by cases cop <;> first | rfl | exact absurd rfl hc
     simp only [h1, Bool.false_eq_true, if_false, h2, Bool.true_and]
@@ -98,6 +98,47 @@ theorem reversed_canonical (env : Env) (name : String) (cop : COp) (hc : cop ≠
       exact parseVerL_relText relEnv hre
     exact coherent_reversed env a cop { release := rel } { release := relEnv } hw hn rfl _ ht
       ⟨hview, rfl, hc, henv, hlit⟩ hv rfl rfl
+
+/-- such atoms on python_full_version / platform_release are Good atoms of the marker theorems (C02, C03, C07,
+    C12, C14) — the merged branch of `GoodAtom`, not the opaque one: a closed-form family of instances -/
+theorem reversed_canonical_good (env : Env) (name : String) (cop : COp) (hc : cop ≠ .compat)
+    (rel relEnv : List Nat) (hr : rel ≠ []) (hre : relEnv ≠ []) (spec : ASpec)
+    (hname : name = "python_full_version" ∨ name = "platform_release")
+    (hw : Atom.WF ⟨name, MOp.ofCOp cop, ".".intercalate (rel.map toString), true, spec⟩)
+    (ht : env name = some (.str (".".intercalate (relEnv.map toString)))) :
+    GoodAtom env ⟨name, MOp.ofCOp cop, ".".intercalate (rel.map toString), true, spec⟩ := by
+  have hn : versionLikeNames.contains name = true := by rcases hname with rfl | rfl <;> decide
+  obtain ⟨_, hcoh⟩ := reversed_canonical env name cop hc rel relEnv hr hre spec hn hw ht
+  have hopn : MOp.ofCOp cop ≠ .in_ ∧ MOp.ofCOp cop ≠ .notIn := by cases cop <;> simp [MOp.ofCOp]
+  refine ⟨hw, ?_⟩
+  have h1 : name ≠ "extra" := by rcases hname with rfl | rfl <;> decide
+  have h2 : setNames.contains name = false := by rcases hname with rfl | rfl <;> decide
+  simp only [h1, if_false, h2, Bool.false_eq_true, hn, if_true]
+  right
+  refine ⟨hcoh, ?_, ?_⟩
+  · -- the view is what the parser builds from the clause over a plain final release
+    let a : Atom := ⟨name, MOp.ofCOp cop, ".".intercalate (rel.map toString), true, spec⟩
+    have hval : a.value.toList = relText rel := toList_relString rel
+    have hclean : C11.Clean a.value.toList := by
+      rw [hval]
+      have := relText_clean rel [] ⟨by simp, by simp, by simp⟩
+      simpa [Lex.Clean, C11.Clean] using this
+    have hp : parseClauseL (a.op.str.toList ++ a.value.toList) = some ⟨cop, { release := rel }, false⟩ := by
+      rw [hval]
+      show parseClauseL ((MOp.ofCOp cop).str.toList ++ relText rel) = _
+      rw [mop_str]
+      have := parseClauseL_final cop rel hr false (by intro h; cases h)
+      simpa using this
+    obtain ⟨s0, hs0, hspec⟩ := spec_of_lex a _ hw hn hopn (lexOne_of_clean a _ hopn hclean hp)
+    show ASpec.Canon spec
+    have : spec = .ver ((Spec.range {}).and s0) := hspec
+    rw [this]
+    have hfin : Spec.FinalV (⟨cop, { release := rel }, false⟩ : Clause Ver).ver := ⟨rfl, rfl, hr⟩
+    exact C06.nice_and _ _ nice_anyRange
+      ⟨fromClause_canon _ _ hs0, Spec.fromClause_textInv _ _ hs0, fromClause_final _ hfin _ hs0⟩
+  · intro hpv
+    exfalso
+    rcases hname with rfl | rfl <;> simp at hpv
 
 end C11
 end DepLogic
